@@ -430,6 +430,21 @@ impl Prop for C14 {
       if observe_all(&*fresh, exact) != ox {
         return Err("an observed source answers differently from a freshly built one".into());
       }
+      // the same value spelled through other public constructors (a raw leaf's text then lives elsewhere: a
+      // `&'static str` at an arbitrary address, a heap copy): equal, same hash under any hasher, same answers
+      {
+        let shift = 1 + (case.hx.len() % 2) as u8;
+        let re = crate::build::with_respell(shift, || build(xs));
+        if *x != *re || *re != *fresh {
+          return Err("a source whose raw leaves were built through another constructor spelling (same content) compares unequal".into());
+        }
+        if hash_of(&*re) != hx0 || crate::props::common::hash_split(&*re) != crate::props::common::hash_split(&*fresh) {
+          return Err("a source whose raw leaves were built through another constructor spelling (same content, text at another address) hashes differently".into());
+        }
+        if observe_all(&*re, exact) != ox {
+          return Err("a source whose raw leaves were built through another constructor spelling answers an observer differently".into());
+        }
+      }
       // clone
       let cl = x.clone();
       if *cl != *x || hash_of(&*cl) != hx0 {
